@@ -17,6 +17,8 @@ pub fn node_model_line(op: &str) -> Option<String> {
     let t: Vec<&str> = op.split_whitespace().collect();
     match t.as_slice() {
         ["al", ..] | ["ks", ..] | ["ksdup", ..] | ["newch", ..] | ["forget", ..] | ["restart"] => Some(op.to_string()),
+        // `world backup`: losing the main store and recovering from the backup is a restart for the model
+        ["mainloss"] => Some("restart".to_string()),
         _ => None,
     }
 }
